@@ -285,6 +285,13 @@ func (h *harness) reorgLocked(d int, spec []int, order int, queueNew bool) {
 			notices[i], notices[j] = notices[j], notices[i]
 		}
 	}
+	heights := map[uint64]bool{}
+	for _, e := range notices {
+		heights[e.l1] = true
+	}
+	if len(heights) >= 2 {
+		h.flagLocked("reorg-of-2+-buffered-blocks")
+	}
 	for _, e := range notices {
 		h.pending = append(h.pending, item{e, true})
 		if e.l1 < h.unsyncedRemovalMin {
@@ -801,6 +808,8 @@ func (h *harness) stopClient() {
 
 var (
 	genEvents = rapid.SampledFrom([]int{0, 0, 0, 1, 1, 1, 1, 2, 2, 3})
+	// replacement blocks of a reorg: more often empty, so that what the client kept of the old fork is not simply overwritten
+	genReorgEvents = rapid.SampledFrom([]int{0, 0, 0, 0, 1, 1, 2, 3})
 	genChunk  = rapid.SampledFrom([]uint64{1, 1, 2, 2, 3, 5, 8, 50})
 )
 
@@ -822,8 +831,8 @@ func (h *harness) drawPlan(label string) plan {
 	if rapid.IntRange(0, 5).Draw(rt, label+"mid") == 0 {
 		p.midAt = rapid.IntRange(0, 2).Draw(rt, label+"midAt")
 		p.midReorg = rapid.Bool().Draw(rt, label+"midReorg")
-		p.midDepth = rapid.IntRange(1, 3).Draw(rt, label+"midDepth")
-		p.midSpec = rapid.SliceOfN(genEvents, 1, 3).Draw(rt, label+"midSpec")
+		p.midDepth = rapid.IntRange(1, 4).Draw(rt, label+"midDepth")
+		p.midSpec = rapid.SliceOfN(genReorgEvents, 1, 4).Draw(rt, label+"midSpec")
 		p.midOrder = rapid.IntRange(0, 1).Draw(rt, label+"midOrder")
 		p.midMiss = rapid.Bool().Draw(rt, label+"midMiss")
 	}
@@ -923,7 +932,7 @@ func (h *harness) step() {
 	npend := len(h.pending)
 	h.mu.Unlock()
 
-	kinds := []string{"mine", "mine", "mine", "mine", "sync", "restart"}
+	kinds := []string{"mine", "mine", "mine", "mine", "mine", "mine", "sync", "restart"}
 	if !hold {
 		kinds = append(kinds, "suberr", "finfail")
 		if npend > 0 {
@@ -936,7 +945,7 @@ func (h *harness) step() {
 		kinds = append(kinds, "finalise", "finalise", "finalise", "finalise")
 	}
 	if top > fin {
-		kinds = append(kinds, "reorg", "reorg")
+		kinds = append(kinds, "reorg", "reorg", "reorg")
 	}
 	kind := rapid.SampledFrom(kinds).Draw(rt, "step")
 	switch kind {
@@ -963,7 +972,7 @@ func (h *harness) step() {
 		h.logf("deliver next %d queued logs", k)
 		h.deliver(k)
 	case "finalise":
-		mode := rapid.SampledFrom([]string{"+1", "event", "event", "max"}).Draw(rt, "finMode")
+		mode := rapid.SampledFrom([]string{"+1", "+1", "event", "event", "max"}).Draw(rt, "finMode")
 		h.mu.Lock()
 		var hs []uint64
 		for n := fin + 1; n <= finCap; n++ {
@@ -988,11 +997,14 @@ func (h *harness) step() {
 		h.logf("finalised height %d -> %d", fin, target)
 	case "reorg":
 		maxd := int(top - fin)
-		if maxd > 3 {
-			maxd = 3
+		if maxd > 4 {
+			maxd = 4
 		}
-		d := rapid.IntRange(1, maxd).Draw(rt, "depth")
-		spec := rapid.SliceOfN(genEvents, d, d+1).Draw(rt, "newBlocks")
+		d := maxd - rapid.SampledFrom([]int{0, 0, 0, 1, 1, 2, 3}).Draw(rt, "depthBelowMax")
+		if d < 1 {
+			d = 1
+		}
+		spec := rapid.SliceOfN(genReorgEvents, d, d+1).Draw(rt, "newBlocks")
 		order := rapid.IntRange(0, 1).Draw(rt, "removalOrder")
 		auto := rapid.Bool().Draw(rt, "deliverNow")
 		h.mu.Lock()
@@ -1113,6 +1125,26 @@ func runScript(rt *rapid.T, c *stats.Case) {
 	h.logf("deliver everything queued; final sync")
 	h.deliver(math.MaxInt32)
 	h.syncCheck("final")
+	// closing phase: finality creeps up block by block (then jumps to the tip), so that everything the client
+	// still buffers is promoted in turn and compared with the model
+	for i := 0; ; i++ {
+		h.mu.Lock()
+		fin, cap := h.fin, h.finCapLocked()
+		if fin < cap {
+			if i < 6 {
+				h.fin = fin + 1
+			} else {
+				h.fin = cap
+			}
+		}
+		now := h.fin
+		h.mu.Unlock()
+		if now == fin {
+			break
+		}
+		h.logf("finalised height %d -> %d; sync", fin, now)
+		h.syncCheck("closing phase")
+	}
 	before, beforeSet := h.readHead(h.bc, srcStep)
 	h.stopClient()
 	h.stopObservers()
@@ -1151,10 +1183,10 @@ const rule = "rapid-drawn script against the real l1.Client + real Blockchain(me
 // TestRaceL1HeadScript runs the script under the race detector (the client, the feed, the database reads of
 // the background sampler and the harness provider all run concurrently).
 func TestRaceL1HeadScript(t *testing.T) {
-	stats.Check(t, stats.Budget{Quick: 60, Thorough: 900}, rule, runScript)
+	stats.Check(t, stats.Budget{Quick: 150, Thorough: 2500}, rule, runScript)
 }
 
 // TestPropL1HeadScript is the same check without the race detector (several times faster, so more scripts).
 func TestPropL1HeadScript(t *testing.T) {
-	stats.Check(t, stats.Budget{Quick: 250, Thorough: 4000}, rule, runScript)
+	stats.Check(t, stats.Budget{Quick: 500, Thorough: 8000}, rule, runScript)
 }
